@@ -131,6 +131,9 @@ func (a Complex) M__imul__(other Object) (Object, error) {
 
 func (a Complex) M__truediv__(other Object) (Object, error) {
 	if b, ok := convertToComplex(other); ok {
+		if b == 0 {
+			return nil, complexDivisionByZero
+		}
 		return Complex(a / b), nil
 	}
 	return NotImplemented, nil
@@ -138,6 +141,9 @@ func (a Complex) M__truediv__(other Object) (Object, error) {
 
 func (a Complex) M__rtruediv__(other Object) (Object, error) {
 	if b, ok := convertToComplex(other); ok {
+		if a == 0 {
+			return nil, complexDivisionByZero
+		}
 		return Complex(b / a), nil
 	}
 	return NotImplemented, nil
@@ -147,6 +153,8 @@ func (a Complex) M__itruediv__(other Object) (Object, error) {
 	return Complex(a).M__truediv__(other)
 }
 
+var complexDivisionByZero = ExceptionNewf(ZeroDivisionError, "complex division by zero")
+
 // Floor a complex number
 func complexFloor(a Complex) Complex {
 	return Complex(complex(math.Floor(real(a)), math.Floor(imag(a))))
@@ -154,14 +162,16 @@ func complexFloor(a Complex) Complex {
 
 func (a Complex) M__floordiv__(other Object) (Object, error) {
 	if b, ok := convertToComplex(other); ok {
-		return complexFloor(a / b), nil
+		q, _, err := complexDivMod(a, b)
+		return q, err
 	}
 	return NotImplemented, nil
 }
 
 func (a Complex) M__rfloordiv__(other Object) (Object, error) {
 	if b, ok := convertToComplex(other); ok {
-		return complexFloor(b / a), nil
+		q, _, err := complexDivMod(b, a)
+		return q, err
 	}
 	return NotImplemented, nil
 }
@@ -171,24 +181,27 @@ func (a Complex) M__ifloordiv__(other Object) (Object, error) {
 }
 
 // Does Mod of two floating point numbers
-func complexDivMod(a, b Complex) (Complex, Complex) {
+func complexDivMod(a, b Complex) (Complex, Complex, error) {
+	if b == 0 {
+		return 0, 0, complexDivisionByZero
+	}
 	q := complexFloor(a / b)
 	r := a - Complex(q)*b
-	return q, Complex(r)
+	return q, Complex(r), nil
 }
 
 func (a Complex) M__mod__(other Object) (Object, error) {
 	if b, ok := convertToComplex(other); ok {
-		_, r := complexDivMod(a, b)
-		return r, nil
+		_, r, err := complexDivMod(a, b)
+		return r, err
 	}
 	return NotImplemented, nil
 }
 
 func (a Complex) M__rmod__(other Object) (Object, error) {
 	if b, ok := convertToComplex(other); ok {
-		_, r := complexDivMod(b, a)
-		return r, nil
+		_, r, err := complexDivMod(b, a)
+		return r, err
 	}
 	return NotImplemented, nil
 }
@@ -199,16 +212,14 @@ func (a Complex) M__imod__(other Object) (Object, error) {
 
 func (a Complex) M__divmod__(other Object) (Object, Object, error) {
 	if b, ok := convertToComplex(other); ok {
-		x, y := complexDivMod(a, b)
-		return x, y, nil
+		return complexDivMod(a, b)
 	}
 	return NotImplemented, None, nil
 }
 
 func (a Complex) M__rdivmod__(other Object) (Object, Object, error) {
 	if b, ok := convertToComplex(other); ok {
-		x, y := complexDivMod(b, a)
-		return x, y, nil
+		return complexDivMod(b, a)
 	}
 	return NotImplemented, None, nil
 }
